@@ -66,6 +66,7 @@ pub fn result_to_json(r: &ExecResult) -> Value {
         "pan": r.panics.iter().map(|(t, m)| json!([t, m])).collect::<Vec<_>>(),
         "cov": r.cover.iter().map(|(k, v)| json!([k, v])).collect::<Vec<_>>(),
         "notes": r.notes,
+        "foreign": r.foreign,
         "dirty": r.dirty,
         "v": r.violation.as_ref().map(|v| json!({
             "prop": v.prop, "kind": v.kind, "detail": v.detail, "tid": v.tid, "op": v.op, "clock": v.clock
@@ -98,7 +99,8 @@ pub fn serve(scenario: &str, params: &Params, core: usize) {
         let trace = it.next() == Some("trace");
         let p = params.clone().set("case", case);
         let prog = (def.build)(&p);
-        let r = exec::run_one(prog, &prefix, trace);
+        let focus = exec::claim_of(&Params::default().set("claim", params.get("focus", 0)));
+        let r = exec::run_one(prog, &prefix, trace, focus);
         let v = result_to_json(&r);
         let mut out = stdout.lock();
         let _ = writeln!(out, "{}", v);
